@@ -270,7 +270,35 @@ func main() {
 		c.Deadline = time.Now().Add(time.Duration(*deadline) * time.Second)
 	}
 	t0 := time.Now()
-	d.Run(c)
+	func() {
+		// A panic that escapes a harness (the library panicked somewhere the harness does not expect it
+		// to) must not look like an infrastructure hiccup: it is recorded as a candidate violation. It
+		// cannot be replayed as a single case; the driver confirms it by re-running this shard.
+		defer func() {
+			if p := recover(); p != nil {
+				stack := string(debug.Stack())
+				where := ""
+				for _, l := range strings.Split(stack, "\n") {
+					if strings.Contains(l, "github.com/hedzr/logg/") && strings.Contains(l, "(") {
+						where = strings.TrimSpace(l)
+						if i := strings.Index(where, "("); i > 0 {
+							where = where[:i]
+						}
+						break
+					}
+				}
+				msg := fmt.Sprint(p)
+				if len(msg) > 120 {
+					msg = msg[:120]
+				}
+				c.untilSig = ""
+				c.Violate(mkViolation(fmt.Sprintf("%s|worker-panic|%s|%s", *check, msg, where), "no-panic-in-library",
+					fmt.Sprintf("the exploration hit a panic outside any guarded call: %v\n%s", p, firstLines(stack, 24)), map[string]any{"panic": msg, "in": where}))
+				c.Flag("exhaustive", false)
+			}
+		}()
+		d.Run(c)
+	}()
 	c.res.WallS = time.Since(t0).Seconds()
 	for k := range c.outcomes {
 		c.res.Outcomes = append(c.res.Outcomes, k)
@@ -310,6 +338,14 @@ func catch(f func()) (p string) {
 	}()
 	f()
 	return ""
+}
+
+func firstLines(s string, n int) string {
+	l := strings.Split(s, "\n")
+	if len(l) > n {
+		l = l[:n]
+	}
+	return strings.Join(l, "\n")
 }
 
 func firstLine(s string) string {
